@@ -452,6 +452,40 @@ example : ex.checkRange 0xFFFF_FFFF_FFFF_FFF0 16 = .ok false :=
 example : ex.checkRange 8 0 = .ok true := checkRange_zero ex 8
 example : ex.checkRange 7 0 = .ok true := checkRange_zero ex 7
 
+/-! ### last_addr for implementations that do not keep their regions sorted -/
+/-- the regions' own requirement (what `GuestRegionMmap::new` enforces), without any order -/
+def RegionsOk (m : GMem) : Prop := ∀ r ∈ m, 0 < r.len ∧ r.start + r.len < U
+
+theorem lastAddr_fold (m : GMem) (h : RegionsOk m) (acc : Nat) :
+    m.foldlM (fun acc r => do let la ← r.lastAddr; pure (max acc la)) acc =
+      Res.ok (m.foldl (fun acc r => max acc (r.start + r.len - 1)) acc) := by
+  induction m generalizing acc with
+  | nil => rfl
+  | cons r rest ih =>
+    have hr := h r List.mem_cons_self
+    rw [List.foldlM_cons, Region.lastAddr_eq hr]
+    simp only [Res.bind_ok, Res.pure_eq, List.foldl_cons]
+    exact ih (fun x hx => h x (List.mem_cons_of_mem _ hx)) _
+
+/-- **`last_addr` does not depend on the order in which an implementation iterates its regions**: for any
+    permutation of the regions (a `GuestMemory` implementation that keeps them in plug order, say) the default
+    method returns the same value — for a well-formed set, the greatest mapped address. -/
+theorem lastAddr_order_independent (m m' : GMem) (hp : m'.Perm m) (h : RegionsOk m) :
+    GMem.lastAddr m' = GMem.lastAddr m := by
+  have h' : RegionsOk m' := fun r hr => h r (hp.mem_iff.1 hr)
+  unfold GMem.lastAddr
+  rw [lastAddr_fold m h, lastAddr_fold m' h']
+  congr 1
+  apply List.Perm.foldl_eq' hp
+  intro x _ y _ z
+  omega
+
+theorem lastAddr_perm_greatest (m m' : GMem) (hp : m'.Perm m) (h : WF m) (hne : m ≠ []) :
+    ∃ a, GMem.lastAddr m' = .ok a ∧ mapped m a ∧ ∀ b, mapped m b → b ≤ a := by
+  rw [lastAddr_order_independent m m' hp h.1]
+  exact ⟨_, lastAddr_spec m h hne⟩
+
+
 end C02
 end VmMem
 
@@ -486,3 +520,5 @@ end VmMem
 #print axioms VmMem.C02.iter_sorted
 #print axioms VmMem.C02.iter_sorted_idx
 #print axioms VmMem.C02.ex_WF
+#print axioms VmMem.C02.lastAddr_order_independent
+#print axioms VmMem.C02.lastAddr_perm_greatest
